@@ -184,3 +184,18 @@ _m("C14",
    "the stochastic export), must equal the model's own rate (py_get_propensity / stochastic probe) to 1e-9.  "
    "Non-trivial: a non-mass-action reaction or an order >= 2 reaction with a repeated reactant.",
    _COMMON + ["bioscrape's annotations are ignored by construction (libsbml + own AST interpreter)"])
+
+_m("C13",
+   "Hypothesis assembles SBML Level 3 Version 2 documents with libsbml only (one compartment of size 1; 1..5 species "
+   "carrying an initial amount, a zero amount, an initial concentration or nothing; 1..5 global parameters; 0..4 "
+   "reactions with stoichiometries 1..3, modifiers and 0..2 local parameters whose ids deliberately collide with "
+   "globals or other reactions' locals; kinetic laws from expression trees over + - * / ^ exp ln abs min max; 0..4 "
+   "assignment and rate rules in a random interleaving on species that occur in no reaction and on a non-constant "
+   "parameter, right-hand sides over symbols no rule assigns).  Oracle: SBML semantics computed from the generated "
+   "trees: initial values (amount precedence), global parameter values, stoichiometry of the true reactions, number of "
+   "assignment rules, and at 2..6 states the post-rule state and the derivative sum(nu x KL) + rate rules, compared to "
+   "1e-9.  A hand-written file with both attributes is a fixed extra case (reader error or amount honoured).  "
+   "Non-trivial: a colliding local parameter, assignment and rate rules in one document, a stoichiometry >= 2, or two "
+   "different initial-value kinds.",
+   _COMMON + ["documents stay inside the documented subset (no events, function definitions, initial assignments, "
+              "boundary species); rate rules target species only"])
